@@ -1915,6 +1915,15 @@ static int64_t eval2(Node *node, char ***label) {
   return val;
 }
 
+// Whether a scalar constant compares unequal to zero. A floating
+// value must not be truncated to an integer first.
+static bool eval_truth(Node *node) {
+  add_type(node);
+  if (is_flonum(node->ty))
+    return eval_double(node) != 0;
+  return eval(node) != 0;
+}
+
 static int64_t eval3(Node *node, char ***label) {
   add_type(node);
 
@@ -1955,29 +1964,44 @@ static int64_t eval3(Node *node, char ***label) {
       return (uint64_t)eval(node->lhs) >> eval(node->rhs);
     return eval(node->lhs) >> eval(node->rhs);
   case ND_EQ:
-    return eval(node->lhs) == eval(node->rhs);
   case ND_NE:
-    return eval(node->lhs) != eval(node->rhs);
   case ND_LT:
-    if (node->lhs->ty->is_unsigned)
-      return (uint64_t)eval(node->lhs) < eval(node->rhs);
-    return eval(node->lhs) < eval(node->rhs);
   case ND_LE:
+    // Floating operands are compared as floating values.
+    if (is_flonum(node->lhs->ty)) {
+      long double lhs = eval_double(node->lhs);
+      long double rhs = eval_double(node->rhs);
+      switch (node->kind) {
+      case ND_EQ: return lhs == rhs;
+      case ND_NE: return lhs != rhs;
+      case ND_LT: return lhs < rhs;
+      default: return lhs <= rhs;
+      }
+    }
+    if (node->kind == ND_EQ)
+      return eval(node->lhs) == eval(node->rhs);
+    if (node->kind == ND_NE)
+      return eval(node->lhs) != eval(node->rhs);
+    if (node->kind == ND_LT) {
+      if (node->lhs->ty->is_unsigned)
+        return (uint64_t)eval(node->lhs) < eval(node->rhs);
+      return eval(node->lhs) < eval(node->rhs);
+    }
     if (node->lhs->ty->is_unsigned)
       return (uint64_t)eval(node->lhs) <= eval(node->rhs);
     return eval(node->lhs) <= eval(node->rhs);
   case ND_COND:
-    return eval(node->cond) ? eval2(node->then, label) : eval2(node->els, label);
+    return eval_truth(node->cond) ? eval2(node->then, label) : eval2(node->els, label);
   case ND_COMMA:
     return eval2(node->rhs, label);
   case ND_NOT:
-    return !eval(node->lhs);
+    return !eval_truth(node->lhs);
   case ND_BITNOT:
     return ~eval(node->lhs);
   case ND_LOGAND:
-    return eval(node->lhs) && eval(node->rhs);
+    return eval_truth(node->lhs) && eval_truth(node->rhs);
   case ND_LOGOR:
-    return eval(node->lhs) || eval(node->rhs);
+    return eval_truth(node->lhs) || eval_truth(node->rhs);
   case ND_CAST: {
     if (node->ty->kind == TY_BOOL && is_flonum(node->lhs->ty))
       return eval_double(node->lhs) != 0;
@@ -2140,7 +2164,7 @@ static long double eval_double2(Node *node) {
   case ND_NEG:
     return -eval_double(node->lhs);
   case ND_COND:
-    return eval_double(node->cond) ? eval_double(node->then) : eval_double(node->els);
+    return eval_truth(node->cond) ? eval_double(node->then) : eval_double(node->els);
   case ND_COMMA:
     return eval_double(node->rhs);
   case ND_CAST:
